@@ -137,6 +137,11 @@ def rule_handshake(chk: Check, view: AsyncView, rid: str):
     bad = [e for e in waits_s if "_start" in _origin(e.recv) or "_submit" in _origin(e.recv) or "_startup" not in _origin(e.recv)]
     chk.add(rid, "AsyncGraph.start: waits only for the startup tasks", not bad, "start() blocks on " + "; ".join(T.show(e.recv)[:80] for e in bad[:2]) +
             ": the user thread may wait for _startup futures only (a task submitted by _start may be the supervisor step, which waits for the user thread)", loc)
+    # the episode's time origin is taken after the startup phase (time 0 = the moment the nodes start running)
+    tt = [e for e in r.events if e.kind == "call" and e.name == "time.time"]
+    wst = [e for e in waits_s if "_startup" in _origin(e.recv)]
+    chk.add(rid, "AsyncGraph.start: time origin taken after startup", len(tt) == 1 and bool(wst) and all(w.idx < tt[0].idx for w in wst),
+            "the common start timestamp must be read after all nodes finished their startup (else the episode does not start at time 0)", chk.loc(fi, tt[0].node if tt else None))
     eps_assert = [e for e in r.events if e.kind == "assert" and mentions(e.term, "eps")]
     chk.add(rid, "AsyncGraph.start: same episode everywhere", len(eps_assert) == 1, "start() must assert that all nodes are in the same episode", loc)
     starts = _calls(r, lambda e: e.name.endswith("._start"))
